@@ -265,6 +265,7 @@ func registerExternals() {
 		fr.i.p.stepLimitObligation = true
 		return nil
 	}
+	ext[S+"TempDir"] = func(fr *frame, args []value) value { return "/symfs/tmp" }
 	ext[S+"Fail"] = func(fr *frame, args []value) value {
 		p := fr.i.p
 		p.check(p.store.Bool(false), args[0].(string), "assert", posString(fr.i.prog.Fset, fr.callpos))
@@ -560,7 +561,7 @@ func registerExternals() {
 		"strconv.ParseFloat": strconv.ParseFloat, "strconv.ParseBool": strconv.ParseBool, "strconv.FormatBool": strconv.FormatBool,
 		"strconv.Quote": strconv.Quote, "strconv.Unquote": strconv.Unquote,
 		"strconv.AppendInt": strconv.AppendInt, "strconv.AppendUint": strconv.AppendUint, "strconv.AppendQuote": strconv.AppendQuote,
-		"bytes.Equal": bytes.Equal, "bytes.Compare": bytes.Compare, "bytes.HasPrefix": bytes.HasPrefix, "bytes.Contains": bytes.Contains,
+		"bytes.Compare": bytes.Compare, "bytes.HasPrefix": bytes.HasPrefix, "bytes.Contains": bytes.Contains,
 		"bytes.Index": bytes.Index, "bytes.IndexByte": bytes.IndexByte, "bytes.TrimSpace": bytes.TrimSpace,
 		"encoding/hex.EncodeToString": hex.EncodeToString, "encoding/hex.DecodeString": hex.DecodeString,
 		"encoding/hex.EncodedLen": hex.EncodedLen, "encoding/hex.DecodedLen": hex.DecodedLen,
@@ -570,6 +571,21 @@ func registerExternals() {
 		"unicode/utf8.RuneLen": utf8.RuneLen,
 	} {
 		ext[n] = bridge(f)
+	}
+	ext["bytes.Equal"] = func(fr *frame, args []value) value {
+		a, _ := args[0].([]value)
+		b, _ := args[1].([]value)
+		if len(a) != len(b) {
+			return false
+		}
+		var r value = true
+		for i := range a {
+			r = andV(r, symEq(nil, a[i], b[i]))
+			if rb, ok := r.(bool); ok && !rb {
+				return false
+			}
+		}
+		return r
 	}
 	ext["strconv.FormatInt"] = func(fr *frame, args []value) value {
 		if s, ok := args[0].(sv); ok {
